@@ -169,7 +169,8 @@ pub struct DistinctOnCase {
 
 pub fn gen_distinct_on_case(t: &mut crate::tape::Tape) -> DistinctOnCase {
     let keys = *t.pick(&["a", "a, b", "b"]);
-    let sort = *t.pick(&["-id", "b, -id", "id", "-b, id", "(a + id)"]);
+    // (the inner sort may mention a group key, in any position)
+    let sort = *t.pick(&["-id", "b, -id", "id", "-b, id", "(a + id)", "id, a", "-id, -a, b", "a, -id", "b, a, id"]);
     let pre = *t.pick(&["", " | filter id > 0", " | derive {c = a + b}"]);
     let grp = format!("from t1 | select {{id, a, b}}{pre} | select {{id, a, b}} | group {{{keys}}} (sort {{{sort}}} | take 1)");
     let other = "(from t2 | select {id, a, b})";
